@@ -26,14 +26,14 @@ def next_serial():
 
 
 class SObj:
-    __slots__ = ("cls", "fields", "fresh", "tag", "serial")
+    __slots__ = ("cls", "fields", "fresh", "tag", "birth")
 
     def __init__(self, cls, fields=None, fresh=True, tag=None):
         object.__setattr__(self, "cls", cls)
         object.__setattr__(self, "fields", dict(fields or {}))
         object.__setattr__(self, "fresh", fresh)
         object.__setattr__(self, "tag", tag)
-        object.__setattr__(self, "serial", next_serial())
+        object.__setattr__(self, "birth", next_serial())
 
     # attribute protocol for *spec* code: full Python lookup through the interpreter
     def __getattr__(self, name):
